@@ -83,13 +83,15 @@ pub fn exercise_metadata(bytes: &[u8], out: &mut Outcome) {
     let list = t.run("BlockList::read", || BlockList::read(SegReader::new(bytes.to_vec())).ok()).flatten();
     t.run("read_blocks", || {
         let mut n = 0usize;
+        // a caller may keep iterating after an error: the iterator must still come to an end
+        let mut items = 0usize;
         for b in read_blocks(SegReader::new(bytes.to_vec())) {
-            if b.is_err() {
-                break;
+            items += 1;
+            if b.is_ok() {
+                n += 1;
             }
-            n += 1;
-            if n > bytes.len() + 8 {
-                panic!("FV_HANG: read_blocks yields more blocks than the input has bytes");
+            if items > bytes.len() + 8 {
+                panic!("FV_HANG: read_blocks yields more items than the input has bytes");
             }
         }
         n
